@@ -191,12 +191,20 @@ package claim
 //@   assert [C07:filter-is-the-computed-key-set] $keys == $fields
 //@ site claim.withSrcFilter($keys...)
 //@   assert [C07:merge-filter-is-the-computed-key-set] $keys == $fields
+//@ site meta.AddAnnotations($o, $a) as propagate-annotations
+//@   where $o == xr
+//@   assert [C07:every-unreserved-claim-annotation-is-propagated-with-the-claims-value] forall k:Str :: !RESERVED(k) ==> (((k in $a) <==> old(k in cm.GetAnnotations())) && $a[k] == old(cm.GetAnnotations()[k]))
+//@   assert [C07:no-reserved-annotation-propagated] forall k:Str :: k in $a ==> !RESERVED(k)
 //@ site (names.NameGenerator).GenerateName(_, _, $o)
 //@   assert [C06:generate-only-for-new-xr] $o == xr && !meta.WasCreated(xr)
 //@ site (client.Writer).Update(_, _, $o) as Update-bind
 //@   where !xrApplied
 //@   assert [C06:claim-references-the-xr] $o == cm && cm.GetResourceReference() != nil && cm.GetResourceReference().Name == xr.GetName()
 //@   update claimBound = err == nil
+//@ site (client.Writer).Update(_, _, $o) as claim-write-before-status-sync
+//@   where !statusUpdated
+//@   assert [C06:every-write-of-the-claim-keeps-its-reference-to-the-xr] $o == cm && cm.GetResourceReference() != nil && cm.GetResourceReference().Name == xr.GetName()
+//@   assert [C06:a-recorded-reference-is-never-replaced] old(cm.GetResourceReference()) != nil ==> cm.GetResourceReference().Name == old(cm.GetResourceReference().Name)
 //@ site (resource.Applicator).Apply(_, _, $o, $opts...)
 //@   assert [C06:xr-applied-after-binding] $o == xr && (claimBound || cmp.Equal(existing, proposed))
 //@   assert [C06:existing-reference-reused] (old(cm.GetResourceReference()) != nil) ==> xr.GetName() == old(cm.GetResourceReference().Name)
@@ -237,3 +245,13 @@ package claim
 //@ props C09
 //@ requires current != nil && desired != nil && typeis(current, *corev1.Secret) && typeis(desired, *corev1.Secret)
 //@ ensures [C09:claim-secret-rewritten-unless-identical] result <==> !cmp.Equal(as(current, *corev1.Secret).Data, as(desired, *corev1.Secret).Data, cmpopts.EquateEmpty())
+
+// C09 (the claim's secret is exactly the XR's): the propagator writes the claim's secret through
+// a replacing (update) applicator, so a key the XR's secret no longer has disappears from the
+// claim's secret too; a merge-patching applicator would leave a superset behind.
+//@ func claim.NewAPIConnectionPropagator
+//@ props C09
+//@ let $app = result resource.NewAPIUpdatingApplicator
+//@ site resource.NewAPIUpdatingApplicator($c)
+//@   assert [C09:claim-secret-written-through-a-replacing-applicator-of-the-given-client] $c == c
+//@ ensures [C09:claim-secret-is-replaced-not-merged] result != nil && result.client.Applicator == $app && result.client.Client == c
